@@ -81,6 +81,7 @@ package tso
 //@   ensures [ok-lastsaved] result == nil ==> istime(t.lastSavedTime.v) && astime(t.lastSavedTime.v) == ts
 //@   ensures [fail-lastsaved] result != nil ==> t.lastSavedTime.v == old(t.lastSavedTime.v)
 //@   ensures [nonowner] etcdn[0] == old(etcdn[0]) + 1 && !ownerAtCommit(leadership) ==> etcdn[1] == old(etcdn[1]) && result != nil
+//@   ensures [no-check-event] last("Check") == old(last("Check"))
 //@   ensures [only-tskey] etcdn[0] == old(etcdn[0]) + 1 ==> forall k :: k != tsKey(t) ==> etcdval[k] == etcdval0[k] && etcdhas[k] == etcdhas0[k]
 //@   modifies t.lastSavedTime.v, ghost etcdhas, ghost etcdval, ghost etcdlease, ghost etcdn, ghost etcdhas0, ghost etcdval0, ghost etcdlease0
 
